@@ -152,9 +152,10 @@ pub fn env_diff(real: &LayerEnv, model: &EnvModel, mix: u64, layer_abs: &[u8]) -
                                 })
                             })
                         };
-                        let explained = implicit_var
-                            && implicit_scope
-                            && (names_layer_path(got.get(k)) || names_layer_path(want.get(k)));
+                        // (an implicit entry showing up in a scope where none belongs is the
+                        // "and for no other scope" half of the same statement)
+                        let _ = implicit_scope;
+                        let explained = implicit_var && (names_layer_path(got.get(k)) || names_layer_path(want.get(k)));
                         if !explained {
                             only_implicit = false;
                         }
@@ -710,7 +711,8 @@ pub fn run_history(history: &History, cfg: &RunCfg, shim: &Shim) -> RunReport {
                 detail.extend(frame.iter().map(|s| (*s).clone()));
             }
         } else if !lines.is_empty() {
-            if !calls_libcnb {
+            let aliased = matches!(op, Op::RewriteSource { .. });
+            if !calls_libcnb && !aliased {
                 ctx.report.harness_error = Some(format!(
                     "step {step} ({}): harness-side mutation differs from the model: {:?}",
                     op.kind_name(),
@@ -758,6 +760,17 @@ pub fn run_history(history: &History, cfg: &RunCfg, shim: &Shim) -> RunReport {
                 }
             }
             viol = Some((props.into_iter().collect(), inv.into(), lines.clone()));
+            if aliased {
+                // the buildpack rewrote its own source file and something in <layers> changed
+                // with it: a layer file shares storage with a file outside the layers directory
+                viol = Some((
+                    vec!["C01".into(), "C02".into()],
+                    "I-alias".into(),
+                    std::iter::once("a file outside <layers> was rewritten in place and the layers directory changed with it:".to_string())
+                        .chain(lines.iter().take(6).cloned())
+                        .collect(),
+                ));
+            }
         }
 
         // a violation in the very step whose call was faulted (and yet returned Ok) is C12's subject
